@@ -124,6 +124,7 @@ def m2m_alphabet():
             cf('tags', ('db_table', '"vapp_beta_labels"')), cf('tags', ('db_table', '"vapp_beta_tags2"')),
             cf('tags', ('null', 'true'), ('db_table', '"vapp_beta_labels"')),
             cf('r', ('null', 'false'), initial='1'), cf('r', ('db_index', 'false')), cf('n', ('null', 'true')),
+            cf('n', ('db_index', 'true')),
             {'t': 'AddField', 'model': 'Beta', 'field': 'x', 'ftype': 'IntegerField', 'initial': '1', 'attrs': []},
             {'t': 'DeleteField', 'model': 'Beta', 'field': 'n'},
             {'t': 'AddField', 'model': 'Alpha', 'field': 'y', 'ftype': 'IntegerField', 'initial': '1', 'attrs': []}]
@@ -140,7 +141,9 @@ def index_rename_alphabet():
             cf('b', ('db_index', 'false')), cf('c', ('db_index', 'false')), rn('a', 'c'), rn('b', 'c'), rn('c', 'a'),
             {'t': 'AddField', 'model': 'Alpha', 'field': 'c', 'ftype': 'IntegerField', 'initial': '1',
              'attrs': [['db_index', 'true']]},
-            cf('a', ('null', 'true'))]
+            cf('a', ('null', 'true')),
+            # a column renamed in place (raw SQL on SQLite) next to an index change of another column
+            cf('a', ('db_column', '"a_col"')), cf('b', ('db_column', '"b_col"'))]
 
 
 def meta_sequences():
